@@ -211,14 +211,20 @@ func runJob(j job) (res result) {
 	}})
 	g.bypass = goid()
 	curInterp.Store(i)
-	curGate.Store(g)
 	defer curGate.Store(nil)
 	if p.Pre != "" {
-		if _, err := i.Eval(p.Pre); err != nil {
+		var err error
+		if p.PreCtx {
+			_, err = i.EvalWithContext(context.Background(), p.Pre)
+		} else {
+			_, err = i.Eval(p.Pre)
+		}
+		if err != nil {
 			res.Err = "pre: " + err.Error()
 			return
 		}
 	}
+	curGate.Store(g) // the operations of the evaluation that is cancelled are counted, not those of Pre
 	var prog *interp.Program
 	if j.Entry == "exec" {
 		var err error
@@ -571,6 +577,9 @@ func run(c *fw.Ctx) error {
 				// the family of blocking constructs: cancelled once everybody is blocked (or main
 				// is busy and the workers are blocked); quick samples one program in six
 				entries = []string{"eval", "path"}
+				if !p.Full {
+					entries = []string{"eval", "eval"} // a session (library evaluated earlier): no file to give to EvalPath
+				}
 				if c.Quick() {
 					if (pi+int(c.Seed))%6 != 0 {
 						continue
@@ -596,11 +605,11 @@ func run(c *fw.Ctx) error {
 					// documented quirk outside this property), so only sessions made of
 					// root-level statements get one.
 					f := "none"
-					if !p.Full {
+					if !p.Full && pi < firstBlocking {
 						f = []string{"none", "after", "before"}[int(k)%3]
 					}
 					jobs = append(jobs, job{Prog: pi, Entry: e, K: k, Follow: f})
-					if !p.Full && !c.Quick() {
+					if !p.Full && !c.Quick() && pi < firstBlocking {
 						jobs = append(jobs, job{Prog: pi, Entry: e, K: k, Follow: []string{"none", "after", "before"}[int(k+1)%3]})
 					}
 				}
